@@ -205,7 +205,7 @@ func (x *c08Run) run(run *explore.Run, steps int, faults bool) {
 	w := env.W
 	var taken *[]world.Injected
 	if faults {
-		taken = w.AttachFaults(run, nil)
+		taken = w.AttachFaultsOpt(run, nil, true)
 	}
 	w.Client.After = x.after
 	x.newControllers()
@@ -300,6 +300,7 @@ func (x *c08Run) run(run *explore.Run, steps int, faults bool) {
 		}
 		x.history = append(x.history, menu[k].name)
 		menu[k].do()
+		w.ClearPersistentFaults()
 		w.SyncCluster()
 		x.checkDisjoint()
 		for _, name := range x.replacementNames() {
@@ -405,9 +406,9 @@ func rollbackClass(why []string) string {
 
 func init() {
 	register("C08", "fault_enumeration", func(r *ev.Rec) {
-		bound, steps := 1, 24
+		bound, steps := 2, 24
 		if r.Tier == "thorough" {
-			bound = 2
+			bound = 3
 		}
 		r.Rule = fmt.Sprintf("%d command shapes (drift 1->1, multi-node 2->1, emptiness delete-only, single-node delete, drift 1->2) are started by the real disruption controller and executed by the real orchestration queue with the real lifecycle controller launching / registering / initializing the replacements (kubelet events played by the harness, informers kept current); histories of %d steps: a fair default cycle (disruption round; per replacement lifecycle + kubelet; per command queue reconcile; clock +2s) and every history with <=%d deviations: any other enabled step inserted, clock +11m (past the retry window), controller restart (all in-memory state dropped), a second disruption round, a replacement vanishing, another actor deleting a candidate, or a failure of any individual API / provider call. "+
 			"Oracle: at every Delete of a candidate every replacement of its command exists and is Initialized and the command is in flight; live commands never share a provider id; after a fault-free settle the candidates of every command that ended unsuccessfully carry no disruption taint, no DisruptionReason condition and no deletion mark, and none was deleted by the queue. non-trivial = distinct (scenario, history)", len(c08Scenarios), steps, bound)
